@@ -143,6 +143,8 @@ type exchange struct {
 	g2c       []refsn.Pkt
 	g2cAt     []int
 	connacks  []refmqtt.Pkt // broker CONNACKs delivered during this exchange
+	g2cIdx    []int         // history index of each g2c packet
+	connackIx []int         // history index of each broker CONNACK
 }
 
 func exchanges(sv *SessView) []*exchange {
@@ -161,7 +163,8 @@ func exchanges(sv *SessView) []*exchange {
 				if cur != nil {
 					if n := len(cur.connacksSent()); n < len(cur.connacks) {
 						nx.connacks = append(nx.connacks, cur.connacks[n:]...)
-						cur.connacks = cur.connacks[:n]
+						nx.connackIx = append(nx.connackIx, cur.connackIx[n:]...)
+						cur.connacks, cur.connackIx = cur.connacks[:n], cur.connackIx[:n]
 					}
 				}
 				cur = nx
@@ -189,10 +192,12 @@ func exchanges(sv *SessView) []*exchange {
 			if cur != nil && e.SNErr == nil {
 				cur.g2c = append(cur.g2c, e.SN)
 				cur.g2cAt = append(cur.g2cAt, len(cur.pkts))
+				cur.g2cIdx = append(cur.g2cIdx, e.Idx)
 			}
 		case EvB2G:
 			if cur != nil && e.MQ.Type == refmqtt.CONNACK {
 				cur.connacks = append(cur.connacks, e.MQ)
+				cur.connackIx = append(cur.connackIx, e.Idx)
 			}
 		}
 	}
@@ -492,7 +497,22 @@ func oracleC09(v *View, vd *Verdict) {
 				}
 			}
 			// CONNACK mapping
-			acks := x.connacksSent()
+			// a CONNACK the gateway sent on its own account (a refusal) before the broker's CONNACK existed
+			// is not the relay of that CONNACK: broker CONNACKs are matched with later CONNACKs only
+			var acks []refsn.Pkt
+			{
+				k := 0
+				for j, p := range x.g2c {
+					if p.Type != refsn.CONNACK {
+						continue
+					}
+					if k < len(x.connackIx) && x.g2cIdx[j] < x.connackIx[k] {
+						continue
+					}
+					acks = append(acks, p)
+					k++
+				}
+			}
 			for i, bc := range x.connacks {
 				if i >= len(acks) {
 					if sv.EndT < 0 && cfg.HorizonMs > 0 {
@@ -822,11 +842,11 @@ func enumC07(tier string, idx int) *Plan {
 func init() {
 	Register(&Check{ID: "C07", Level: "fault_enumeration",
 		Rule:   "every sequence of up to 3 pre-connect client packets over a 14-symbol alphabet (CONNECT +-will, AUTH, WILLTOPIC, WILLMSG, DISCONNECT +-duration, PINGREQ, REGISTER, PUBLISH QoS -1/0-2, SUBSCRIBE, PUBREL, REGACK) x auth on/off (quick: a 600-sequence spread of the 5,908; thorough: all), followed by random longer sequences over 27 packet kinds (a fifth of them with a slow or CONNECT-silent broker) and, every fourth, a connect exchange complete up to the broker's CONNACK (slow/silent broker) followed by packets legal only in an accepted session; a probe PUBLISH closes each sequence; non-trivial = >= 2 packets consumed before any accepted connect",
-		Enum:   enumC07, Gen: genC07, Oracle: oracleC07, Quick: 900, Thorough: 12000})
+		Enum:   enumC07, Gen: genC07, Oracle: oracleC07, Quick: 900, Thorough: 40000})
 	Register(&Check{ID: "C08", Level: "exploration",
 		Rule:   "random connect exchanges: CONNECT (+-will, keep-alive incl. 0) followed by 0-4 of AUTH (PLAIN well-formed / malformed / other method / empty method), WILLTOPIC, WILLMSG in any order, repeated exchanges, gateway credentials {none,user,user+password,password only}, auth on/off, broker CONNACK codes 0-5, the broker's answer delayed by 0.3-3 s in 30 % and datagram duplication in 25 % of the runs; non-trivial = exchange with at least one follow-up packet or an MQTT CONNECT",
-		Gen:    func(g *Gen, idx int) *Plan { return genConnectExchange(g, "C08-exchange", "C08") }, Oracle: oracleC08, Quick: 700, Thorough: 40000})
+		Gen:    func(g *Gen, idx int) *Plan { return genConnectExchange(g, "C08-exchange", "C08") }, Oracle: oracleC08, Quick: 2000, Thorough: 160000})
 	Register(&Check{ID: "C09", Level: "exploration",
 		Rule:   "same exchange generator as C08; oracle: WILLTOPICREQ/WILLMSGREQ/CONNECT ordering, will data carried over, at most one MQTT CONNECT per client CONNECT, CONNACK code mapping (accepted iff broker accepted, else congestion; not supported for keep-alive 0); non-trivial = any connect exchange",
-		Gen:    func(g *Gen, idx int) *Plan { return genConnectExchange(g, "C09-exchange", "C09") }, Oracle: oracleC09, Quick: 700, Thorough: 40000})
+		Gen:    func(g *Gen, idx int) *Plan { return genConnectExchange(g, "C09-exchange", "C09") }, Oracle: oracleC09, Quick: 2000, Thorough: 160000})
 }
